@@ -15,10 +15,13 @@ package main
 import (
 	"encoding/hex"
 	"fmt"
+	"io"
 	"math/rand"
+	"net"
 	"runtime"
 	"sync"
 	"sync/atomic"
+	"time"
 
 	"github.com/vapourismo/knx-go/knx/cemi"
 	"github.com/vapourismo/knx-go/knx/knxnet"
@@ -320,6 +323,176 @@ func max(a, b int) int {
 	return b
 }
 
+// transport slice: the encoding travels through the library's own sockets. One
+// library socket sends the value (TunnelSocket.Send: Size, Pack, one write);
+// the bytes are relayed to a second library socket over TCP re-segmented at
+// arbitrary points (single octets, frames glued together, bursts larger than
+// the receiver's 4096-byte read buffer) or over UDP one datagram each; what
+// arrives on Inbound must equal the value that was sent, in order, none lost.
+func transport(rng *rand.Rand, network string, n int) {
+	ln, err := net.Listen("tcp4", "127.0.0.1:0")
+	if err != nil {
+		r.Inconclusive("transport: " + err.Error())
+		return
+	}
+	defer ln.Close()
+	var rx *knxnet.TunnelSocket
+	var relay func(b []byte, last bool) error
+	var closeAll func()
+	if network == "tcp" {
+		rx, err = knxnet.DialTunnelTCP(ln.Addr().String())
+		if err != nil {
+			r.Inconclusive("transport: " + err.Error())
+			return
+		}
+		conn, err := ln.Accept()
+		if err != nil {
+			rx.Close()
+			r.Inconclusive("transport: " + err.Error())
+			return
+		}
+		var pending []byte
+		relay = func(b []byte, last bool) error {
+			pending = append(pending, b...)
+			// flush in arbitrary segments; keep a tail back now and then so that a frame is
+			// completed only by a later write
+			for len(pending) > 0 {
+				k := len(pending)
+				switch rng.Intn(5) {
+				case 0:
+					k = 1
+				case 1, 2:
+					k = 1 + rng.Intn(len(pending))
+				case 3:
+					if !last && len(pending) < 9000 {
+						return nil // glue the next frame(s) on
+					}
+				}
+				if _, err := conn.Write(pending[:k]); err != nil {
+					return err
+				}
+				pending = pending[k:]
+				if rng.Intn(4) == 0 {
+					time.Sleep(time.Duration(rng.Intn(400)) * time.Microsecond)
+				}
+			}
+			return nil
+		}
+		closeAll = func() { conn.Close(); rx.Close() }
+	} else {
+		pc, err := net.ListenPacket("udp4", "127.0.0.1:0")
+		if err != nil {
+			r.Inconclusive("transport: " + err.Error())
+			return
+		}
+		rx, err = knxnet.DialTunnelUDP(pc.LocalAddr().String())
+		if err != nil {
+			pc.Close()
+			r.Inconclusive("transport: " + err.Error())
+			return
+		}
+		// learn the receiver's address from a first datagram it sends
+		rx.Send(&knxnet.DescriptionReq{})
+		buf := make([]byte, 2048)
+		pc.SetReadDeadline(time.Now().Add(2 * time.Second))
+		_, raddr, err := pc.ReadFrom(buf)
+		if err != nil {
+			pc.Close()
+			rx.Close()
+			r.Inconclusive("transport: " + err.Error())
+			return
+		}
+		relay = func(b []byte, last bool) error { _, err := pc.WriteTo(b, raddr); return err }
+		closeAll = func() { pc.Close(); rx.Close() }
+	}
+	defer closeAll()
+	// the sending side: a library TCP socket whose peer end we read verbatim
+	tx, err := knxnet.DialTunnelTCP(ln.Addr().String())
+	if err != nil {
+		r.Inconclusive("transport: " + err.Error())
+		return
+	}
+	defer tx.Close()
+	txPeer, err := ln.Accept()
+	if err != nil {
+		r.Inconclusive("transport: " + err.Error())
+		return
+	}
+	defer txPeer.Close()
+	attrs := map[string]string{"transport": network}
+	type sentT struct {
+		dump string
+		raw  []byte
+	}
+	batch := 1
+	for i := 0; i < n; {
+		if network == "tcp" && rng.Intn(6) == 0 {
+			batch = 40 + rng.Intn(80) // a burst: crosses the receiver's buffer size
+		} else {
+			batch = 1 + rng.Intn(4)
+		}
+		var sent []sentT
+		for j := 0; j < batch && i < n; j, i = j+1, i+1 {
+			svc := gen.EncodableServices[rng.Intn(len(gen.EncodableServices))]
+			kind := -1
+			if gen.CarriesCemi(svc) {
+				kind = rng.Intn(8)
+			}
+			f := gen.Frame(rng, svc, kind)
+			v := libx.Service(f)
+			want := f.Encode()
+			r.Crumb("C02 transport %s i=%d bytes=%x", network, i, want)
+			if err := tx.Send(v); err != nil {
+				r.Inconclusive("transport: send: " + err.Error())
+				return
+			}
+			raw := make([]byte, len(want))
+			txPeer.SetReadDeadline(time.Now().Add(5 * time.Second))
+			if _, err := io.ReadFull(txPeer, raw); err != nil {
+				r.Violate("transport.sent-length", attrs, map[string]interface{}{"expected_bytes": hex.EncodeToString(want)}, "[%s] Send put fewer octets on the wire than the encoding has (%d expected): %v", network, len(want), err)
+				return
+			}
+			if string(raw) != string(want) {
+				r.Violate("transport.sent-bytes", attrs, map[string]interface{}{"expected_bytes": hex.EncodeToString(want), "wire": hex.EncodeToString(raw)}, "[%s] Send wrote %x, the KNX layout is %x", network, raw, want)
+				return
+			}
+			if network == "udp" && len(raw) > 1024 {
+				continue // larger than the receiver's datagram buffer
+			}
+			sent = append(sent, sentT{libx.Dump(v), raw})
+			if err := relay(raw, j == batch-1 || i == n-1); err != nil {
+				r.Inconclusive("transport: relay: " + err.Error())
+				return
+			}
+		}
+		for k, sd := range sent {
+			r.Eval(1)
+			select {
+			case got, ok := <-rx.Inbound():
+				if !ok {
+					r.Violate("transport.receiver-ended", attrs, map[string]interface{}{"expected": trunc(sd.dump), "bytes": hex.EncodeToString(sd.raw)}, "[%s] the receiving socket ended while %d sent frames were outstanding (next: %x)", network, len(sent)-k, sd.raw)
+					return
+				}
+				if d := libx.Dump(got); d != sd.dump {
+					r.Violate("transport.value", attrs, map[string]interface{}{"sent": trunc(sd.dump), "received": trunc(d), "bytes": hex.EncodeToString(sd.raw)}, "[%s] sent %s, the receiving socket delivered %s", network, trunc(sd.dump), trunc(d))
+					return
+				}
+				atomic.AddInt64(&nTransport, 1)
+				r.DistinctBytes("t"+network, sd.raw)
+			case <-time.After(5 * time.Second):
+				if network == "udp" {
+					r.Inconclusive("transport: a loopback datagram did not arrive (dropped by the kernel?)")
+					return
+				}
+				r.Violate("transport.lost", attrs, map[string]interface{}{"expected": trunc(sd.dump), "bytes": hex.EncodeToString(sd.raw)}, "[%s] frame %x was sent completely but never delivered by the receiving socket", network, sd.raw)
+				return
+			}
+		}
+	}
+}
+
+var nTransport int64
+
 func run(rr *mon.Run) {
 	r = rr
 	r.Rule("oracle 1: abstract frames drawn per (service x cEMI kind) cell with corner-biased fields (full 8/16-bit ranges, APCI 0..15, TPCI seq 0..15, payload 1..254, info 0..255, 0..20 families, names 0..29 Latin-1 bytes), encoded by the library and by an independent builder; oracle 2: valid encodings with 1..3 non-length bytes substituted / DIBs reordered / CRD varied. Distinct = distinct encoded byte strings (hash set); non-trivial = the case got past the header into a service-specific code path (all generated cases do; rejected mutations are not counted)")
@@ -371,6 +544,11 @@ func run(rr *mon.Run) {
 		}()
 	}
 	wg.Wait()
+	for i := 0; i < r.Pick(2, 12); i++ {
+		trng := rand.New(rand.NewSource(r.Seed()*77 + int64(i)))
+		transport(trng, []string{"tcp", "udp"}[i%2], r.Pick(600, 6000))
+	}
+	r.Observe("frames_through_library_sockets", atomic.LoadInt64(&nTransport))
 	r.Observe("decoder_consumed_whole_encoding", atomic.LoadInt64(&nFull))
 	r.Observe("decoder_consumed_less_than_whole", atomic.LoadInt64(&nPartial))
 	r.Observe("cemi_direct_roundtrips", atomic.LoadInt64(&nCemiDirect))
